@@ -97,8 +97,35 @@ def obj_view(m, answers):
             "questions": qs, "records": rs}
 
 
+class WorkBudgetExceeded(BaseException):
+    """raised by the watchdog timer: the decoder did not finish within WATCHDOG_S seconds of wall clock
+    (a decode of an 8966-byte datagram takes milliseconds; the property demands a fixed work budget)"""
+
+
+WATCHDOG_S = 4.0
+
+
+def _watchdog(signum, frame):
+    raise WorkBudgetExceeded()
+
+
 def observe(data: bytes, count_reads=False):
     """run the real decoder; -> dict(status, exc, counters, obj)"""
+    import signal
+
+    old = signal.signal(signal.SIGALRM, _watchdog)
+    signal.setitimer(signal.ITIMER_REAL, WATCHDOG_S)
+    try:
+        return _observe(data, count_reads)
+    except WorkBudgetExceeded:
+        sys.setprofile(None)
+        return {"status": "nontermination", "exc": "WorkBudgetExceeded", "names": 0, "acts": 0, "depth": 0, "obj": None, "reads": 0}
+    finally:
+        signal.setitimer(signal.ITIMER_REAL, 0)
+        signal.signal(signal.SIGALRM, old)
+
+
+def _observe(data: bytes, count_reads=False):
     I = impl()
     inc = I["inc"]
     dec_code, name_code = I["dec_code"], I["name_code"]
@@ -655,6 +682,10 @@ def check_case(res, data, stream, obs, mline, sline, bline, model_ok=True):
     res.evaluations += 1
     res.count("stream:" + stream)
     # ---------------- O: the property's sentences on the implementation
+    if obs["status"] == "nontermination":
+        res.violate("C02:budget:no-termination", "decoding a %d-byte datagram did not finish within %.0f s of wall clock (unbounded loop)"
+                    % (len(data), WATCHDOG_S), case)
+        return
     if obs["status"] != "ok":
         res.violate("C02:escape:%s" % obs["exc"], "%s escapes %s for a %d-byte datagram (recursion depth %d)"
                     % (obs["exc"], "DNSIncoming(data)" if obs["status"] == "init-raised" else "answers()", len(data), obs["depth"]), case)
